@@ -82,8 +82,8 @@ def short(fn):
     return fn.split("::")[-1]
 
 
-def _verus(gen, build_dir, rlimit, extra, timeout):
-    cmd = [VERUS, gen, "--output-json", "--time", "--multiple-errors", "5"]
+def _verus(gen, build_dir, rlimit, extra, timeout, multiple_errors=3):
+    cmd = [VERUS, gen, "--output-json", "--time", "--multiple-errors", str(multiple_errors)]
     if rlimit:
         cmd += ["--rlimit", str(rlimit)]
     cmd += list(extra)
@@ -135,6 +135,36 @@ def auto_stubs(repo, A, stderr):
     return out
 
 
+def no_decreases_fixups(A, stderr, gen):
+    """Changed code contains a loop/recursion without a measure.  Termination of that function is then not
+    checked (attribute exec_allows_no_decreases_clause) so that its contract can still be decided."""
+    out = []
+    spans = fn_spans(A.text)
+    errs = parse_errors(stderr, A, gen)
+    seen = set()
+    for e in errs:
+        if "must have a decreases clause" not in e["msg"] or not e["gen_line"]:
+            continue
+        best = None
+        for (nm, a, b) in spans:
+            if a <= e["gen_line"] <= b and (best is None or a >= best[1]):
+                best = (nm, a, b)
+        if best and best[1] not in seen:
+            seen.add(best[1])
+            out.append((best[1], "termination of %s is not checked: the changed code has a loop or recursion without a measure" % best[0]))
+    if not out:
+        # diagnostic without a location (loop header produced by a macro): every function that contains a
+        # while/loop but no decreases clause at all
+        lines = A.text.split("\n")
+        for (nm, a, b) in spans:
+            body = "\n".join(lines[a - 1:b])
+            if re.search(r"\b(while|loop)\b", rs.mask(body)) \
+                    and "exec_allows_no_decreases_clause" not in "\n".join(lines[max(0, a - 3):a]) and a not in seen:
+                seen.add(a)
+                out.append((a, "termination of %s is not checked: the changed code has a loop without a measure" % nm))
+    return out
+
+
 def run_unit(repo, tmpl_path, build_dir, twins=False, rlimit=None, extra=(), timeout=600, suffix=""):
     R = UnitResult()
     name = os.path.splitext(os.path.basename(tmpl_path))[0]
@@ -153,13 +183,19 @@ def run_unit(repo, tmpl_path, build_dir, twins=False, rlimit=None, extra=(), tim
     gen = os.path.join(build_dir, name + suffix + ("_twins" if twins else "") + ".rs")
     R.gen_path = gen
     p = None
+    if twins:
+        # vacuity twins only have to be *not provable*: a small resource limit is enough (a twin that runs out of
+        # resources is as good as a twin that is refuted), so per-function rlimit attributes are dropped
+        A.text = re.sub(r"#\[verifier::rlimit\(\d+\)\]", "", A.text)
+        if rlimit is None:
+            rlimit = 3
     for attempt in range(3):
         with open(gen, "w", encoding="utf-8") as f:
             f.write(A.text)
         with open(gen + ".map.json", "w") as f:
             json.dump(A.linemap, f)
         try:
-            cmd, p = _verus(gen, build_dir, rlimit, extra, timeout)
+            cmd, p = _verus(gen, build_dir, rlimit, extra, timeout, 0 if twins else 3)
         except subprocess.TimeoutExpired:
             R.status = "undecided"
             R.reason = "verus timed out after %ds" % timeout
@@ -168,17 +204,42 @@ def run_unit(repo, tmpl_path, build_dir, twins=False, rlimit=None, extra=(), tim
         R.cmd = " ".join(cmd)
         stubs = auto_stubs(repo, A, p.stderr) if "no method named" in p.stderr else []
         stubs = [s_ for s_ in stubs if s_[1] not in R.auto_stubs]
+        nodec = no_decreases_fixups(A, p.stderr, gen) if "must have a decreases clause" in p.stderr else []
+        nodec = [d for d in nodec if d[1] not in R.auto_stubs]
+        if nodec:
+            lines = A.text.split("\n")
+            for (ln, desc) in sorted(nodec, reverse=True):
+                lines.insert(ln - 1, "#[verifier::exec_allows_no_decreases_clause]")
+                A.linemap.insert(ln - 1, ("gen", "auto-attr", 0))
+                R.auto_stubs.append(desc)
+            A.text = "\n".join(lines)
+            if not stubs:
+                continue
         if not stubs:
             break
-        # splice the stubs in front of the closing brace of the verus! block and retry
-        k = A.text.rfind("} // verus!")
-        if k < 0:
-            break
-        add = "".join(t for t, _ in stubs)
-        A.text = A.text[:k] + add + A.text[k:]
-        nl = add.count("\n")
-        line_k = A.text.count("\n", 0, k)
-        A.linemap = A.linemap[:line_k] + [("gen", "auto-stub", 0)] * nl + A.linemap[line_k:]
+        # splice each stub right after the definition of its type (same module), else in front of the closing
+        # brace of the verus! block, and retry
+        for (t, d) in stubs:
+            mt = re.search(r"impl(?:<[^>]*>)?\s+([A-Za-z_][A-Za-z0-9_]*)", t)
+            k = -1
+            if mt:
+                msk = rs.mask(A.text)
+                md = re.search(r"\b(?:struct|enum)\s+%s\b" % re.escape(mt.group(1)), msk)
+                if md:
+                    j = md.end()
+                    while j < len(msk) and msk[j] not in "{;":
+                        j += 1
+                    if j < len(msk):
+                        k = (rs.match_close(msk, j) + 1) if msk[j] == "{" else j + 1
+            if k < 0:
+                k = A.text.rfind("} // verus!")
+            if k < 0:
+                continue
+            add = "\n" + t
+            A.text = A.text[:k] + add + A.text[k:]
+            nl = add.count("\n")
+            line_k = A.text.count("\n", 0, k)
+            A.linemap = A.linemap[:line_k + 1] + [("gen", "auto-stub", 0)] * nl + A.linemap[line_k + 1:]
         R.auto_stubs += [d for _, d in stubs]
     R.wall_s = time.time() - t0
     R.stderr = p.stderr
@@ -275,6 +336,11 @@ def parse_errors(stderr, A, gen):
                     o = A.linemap[g - 1]
                     if o not in related:
                         related.append(o)
-        errs.append({"msg": msg, "kind": kind, "gen_line": gl, "origin": origin,
+        site = ""
+        if gl:
+            tl = A.text.split("\n")
+            if 1 <= gl <= len(tl):
+                site = re.sub(r"\s+", " ", tl[gl - 1]).strip()
+        errs.append({"msg": msg, "kind": kind, "gen_line": gl, "origin": origin, "site": site,
                      "related": related, "text": "\n".join(b["lines"]).rstrip()})
     return errs
